@@ -143,7 +143,24 @@ class SymInt:
         return fork(self.e != 0)
 
     def __hash__(self):
-        raise HarnessError("hash of a symbolic integer (dictionary keys must stay concrete)")
+        """Dictionary keys: like SymStr, the hash of a symbolic integer is decided by forking on its equality with the integers
+        hashed earlier on this path; an integer with a single possible value hashes like the plain int."""
+        ex = cur()
+        if self.lo is not None and self.lo == self.hi:
+            h = hash(self.lo)
+            if ("int", self.lo) not in ex.hash_plain:
+                ex.hash_plain[("int", self.lo)] = h
+                ex.hash_registry.append((self, h))
+            return h
+        for t, h in ex.hash_registry:
+            if t is self:
+                return h
+            if isinstance(t, SymInt) and fork(self.e == t.e):
+                return h
+        ex.hash_counter += 1
+        h = 0x1EED0000 + ex.hash_counter
+        ex.hash_registry.append((self, h))
+        return h
 
     def __index__(self):
         raise HarnessError("symbolic integer used as an index / range bound")
